@@ -17,6 +17,7 @@ from ..workloads import markers as MW
 from ._marker_common import mentioned, run_trees
 
 PROP = "C12"
+ANCHORS = ['dep_logic.markers.single:SingleMarker.only', 'dep_logic.markers.single:SingleMarker.exclude', 'dep_logic.markers.single:SingleMarker.without_extras', 'dep_logic.markers.multi:MultiMarker.only', 'dep_logic.markers.multi:MultiMarker.exclude', 'dep_logic.markers.union:MarkerUnion.only', 'dep_logic.markers.union:MarkerUnion.exclude']
 RULE = ("Operation trees as in C15 with only/exclude/without_extras applied to compound results (names drawn from "
         "the variables the operand mentions 80% of the time; all subsets of mentioned variables when <=4), incl. "
         "the nested/factored shapes of the small-scope strata. Every call of the three methods on any class (also "
